@@ -44,7 +44,7 @@ static const char	*PROP;
 static int		is_asan;
 
 static int g_maxdepth = 1000, g_nofinish;
-static int st_states, st_trans, st_exec, st_merges, st_audits, st_selfloops, st_dn, st_cfgs, st_finish, st_randscripts, st_cb_calls, st_releases;
+static int st_states, st_trans, st_exec, st_merges, st_audits, st_selfloops, st_dn, st_cfgs, st_finish, st_randscripts, st_cb_calls, st_releases, st_quiet;
 
 /* ------------------------------------------------------------------ rand() seam */
 #define RANDMAX_SCRIPT 64
@@ -157,8 +157,10 @@ typedef struct {
 	uint64_t	mark;
 	long		badfree0;
 	int		ok;			/* session configured */
+	int		quiet;			/* history run without intermediate queries (only the last operation is observed) */
 } world_t;
 
+static int g_mute, g_quiet_run;	/* quiet histories: the application does not look at the session between operations */
 static long g_oc[8][4][5][2];	/* [codec][call kind][status 0..3 / 4=other][complete] transitions observed, flushed per item */
 static void flush_outcomes (void)
 {
@@ -361,6 +363,7 @@ static void observe (world_t *w, int kind, int st, int full)
 	const char *cn = G.codec == 1 ? "rs28" : G.codec == 2 ? (G.m == 4 ? "rs2m4" : "rs2m8") : G.codec == 5 ? "2d" : "ldpc";
 	const char *call = kind == 1 ? "DWS" : kind == 2 ? "SAS" : kind == 3 ? "FINISH" : "query";
 
+	if (g_mute) { w->last_st = st; return; }
 	complete = VF_LIB (of_is_decoding_complete (w->ses)) ? 1 : 0;
 	for (i = 0; i < k; i++) w->src_tab[i] = w->poison;	/* "table, that will be filled by the library": stale content must not survive */
 	gst = (int) VF_LIB (of_get_source_symbols_tab (w->ses, w->src_tab));
@@ -412,7 +415,7 @@ static void observe (world_t *w, int kind, int st, int full)
 		else if (st != OF_STATUS_OK && st != OF_STATUS_FAILURE) { snprintf (sig, sizeof sig, "codec=%s|call=FINISH|kind=status-%d|complete=%d|cb=%d", cn, st, complete, G.cbmode); viol ((G.cbmode == 2 || G.cbmode == 3) ? "C11" : "C10", sig); }
 	}
 	/* C10: the very pointer supplied for a source symbol submitted while unknown */
-	if (gst == OF_STATUS_OK && G.codec != 5)
+	if (gst == OF_STATUS_OK && G.codec != 5 && !w->quiet)	/* (a quiet run does not know which symbols were still unknown when submitted) */
 		for (i = 0; i < k; i++)
 			if (w->first_ptr[i] && w->src_tab[i] != w->first_ptr[i]) {
 				snprintf (sig, sizeof sig, "codec=%s|call=%s|kind=submitted-source-pointer-not-reported|%s", cn, call, w->src_tab[i] ? "other-pointer" : "null");
@@ -655,7 +658,7 @@ static void hist_case (const hist_t *h)
 	size_t l;
 	int i;
 	cfg_str (c, sizeof c, &G); rand_str (r, sizeof r);
-	l = (size_t) snprintf (g_case, sizeof g_case, "%s %s ops=", c, r);
+	l = (size_t) snprintf (g_case, sizeof g_case, "%s %s ops=%s", c, r, g_quiet_run ? "Q," : "");
 	if (h->has_sas) l += (size_t) snprintf (g_case + l, sizeof g_case - l, "Sm%llx,", (unsigned long long) h->sas);
 	for (i = 0; i < h->nops && l + 8 < sizeof g_case; i++)
 		l += (size_t) (h->ops[i] == 0xFF ? snprintf (g_case + l, sizeof g_case - l, "F,") : snprintf (g_case + l, sizeof g_case - l, "D%d,", h->ops[i]));
@@ -674,6 +677,8 @@ static vf_h128 run_hist (const hist_t *h, vf_h128 *pre, int *finished_out)
 	vf_h_init (&d);
 	w = world_new ();
 	if (!world_open (w)) { world_close (w); return d; }
+	w->quiet = g_quiet_run;
+	g_mute = g_quiet_run && total > 0;
 	observe (w, 0, 0, 1);
 	if (pre && total == 0) *pre = digest (w);
 	if (h->has_sas) {
@@ -681,13 +686,16 @@ static vf_h128 run_hist (const hist_t *h, vf_h128 *pre, int *finished_out)
 		for (i = 0; i < G.n; i++) mem[i] = (unsigned char) ((h->sas >> i) & 1);
 		step++;
 		if (pre && step == total) *pre = digest (w);
+		g_mute = g_quiet_run && step < total;
 		op_sas (w, mem);
 	}
 	for (i = 0; i < h->nops; i++) {
 		step++;
 		if (pre && step == total) *pre = digest (w);
+		g_mute = g_quiet_run && step < total;
 		if (h->ops[i] == 0xFF) op_fin (w); else op_dws (w, h->ops[i], 1);
 	}
+	g_mute = 0;
 	d = digest (w);
 	if (finished_out) *finished_out = w->finished;
 	vf_stat_add (st_cb_calls, w->cb_total);
@@ -818,6 +826,9 @@ static void bfs_try (void *arg)
 	}
 	if (b->nq >= x->state_cap) return;
 	bfs_add (b, d, &x->h, fin);
+	/* the same history again without looking at the session between the operations: every oracle must hold on what
+	 * the application sees at the end (queries are not allowed to be what makes the decoder work) */
+	if (x->h.nops + (x->h.has_sas ? 1 : 0) >= 2) { g_quiet_run = 1; run_hist (&x->h, NULL, NULL); g_quiet_run = 0; vf_stat_add (st_quiet, 1); }
 }
 
 static void bfs_config (const cfg_t *c, int sas_limit, long state_cap, long audits)
@@ -939,13 +950,17 @@ static void run_scenario (const char *ops)
 	vf_stat_add (st_exec, 1);
 	w = world_new ();
 	if (!world_open (w)) { world_close (w); free (mem); return; }
+	if (!strncmp (ops, "Q,", 2) && ops[2]) { w->quiet = 1; g_mute = 1; }
 	observe (w, 0, 0, 1);
+	g_mute = 0;
 	while (*p) {
 		size_t l = strcspn (p, ",");
 		if (l >= sizeof tok) l = sizeof tok - 1;
 		memcpy (tok, p, l); tok[l] = 0;
 		p += l; if (*p == ',') p++;
 		if (!tok[0]) continue;
+		if (tok[0] == 'Q' && !tok[1]) { w->quiet = 1; continue; }
+		g_mute = w->quiet && *p != 0;	/* quiet scenario: only the last operation is observed */
 		vf_stat_add (st_trans, 1);
 		if (tok[0] == 'F') op_fin (w);
 		else if (tok[0] == 'D') op_dws (w, atoi (tok + 1), 1);
@@ -980,6 +995,7 @@ static void run_scenario (const char *ops)
 			vf_stat_add (st_trans, total > 0 ? total - 1 : 0);
 		}
 	}
+	g_mute = 0;
 	{
 		char nm[64];
 		snprintf (nm, sizeof nm, "codec%d:%s:%s", G.codec, w->finished ? (w->last_st == OF_STATUS_OK ? "finish-ok" : "finish-fail") : "nofinish", w->last_complete ? "complete" : "incomplete");
@@ -1359,7 +1375,7 @@ int main (int argc, char **argv)
 #endif
 	st_states = vf_stat_id ("states"); st_trans = vf_stat_id ("transitions"); st_exec = vf_stat_id ("executions");
 	st_merges = vf_stat_id ("merges"); st_audits = vf_stat_id ("merge_audits"); st_selfloops = vf_stat_id ("selfloops");
-	st_dn = vf_stat_id ("distinct_nontrivial"); st_cfgs = vf_stat_id ("configurations"); st_finish = vf_stat_id ("finish_calls");
+	st_dn = vf_stat_id ("distinct_nontrivial"); st_cfgs = vf_stat_id ("configurations"); st_finish = vf_stat_id ("finish_calls"); st_quiet = vf_stat_id ("quiet_histories");
 	st_randscripts = vf_stat_id ("rand_script_deviations"); st_cb_calls = vf_stat_id ("callback_invocations"); st_releases = vf_stat_id ("releases");
 
 	if (vf_replay_case ()) {
